@@ -6,7 +6,7 @@ from hypothesis import strategies as st
 
 from vf.core import Obs
 from vf.lab import lab_spec
-from vf.prog import World, execute, expect_sequential, expect_transfer, flat_pairs, op_direct, op_distribute, op_transfer, resolve, trough_indices, vs_ok
+from vf.prog import ops_list, World, execute, expect_sequential, expect_transfer, flat_pairs, op_direct, op_distribute, op_transfer, resolve, trough_indices, vs_ok
 
 PID = "C11"
 RULE = (
@@ -49,7 +49,7 @@ def _case(draw, focus, tier="quick"):
     direct = op_direct(vs, max_n=4)
     anyop = st.one_of(t, d, direct, direct)
     fop = {"transfer": t, "distribute": d, "direct": direct, "mixed": anyop}[focus]
-    return {"labs": labs, "device": draw(st.sampled_from(["evo", "fluent"])), "M": M, "auto_split": draw(st.sampled_from([True, True, False])), "ops": draw(st.lists(st.one_of(fop, anyop), min_size=1, max_size=14 if tier == "quick" else 25))}
+    return {"labs": labs, "device": draw(st.sampled_from(["evo", "fluent"])), "M": M, "auto_split": draw(st.sampled_from([True, True, False])), "ops": draw(ops_list(st.one_of(fop, anyop), 1, 14 if tier == "quick" else 25))}
 
 
 def strategy(tier, stratum):
